@@ -11,13 +11,13 @@ import (
 
 func init() {
 	register("C17", &propSpec{
-		technique: "static analysis: exact guard-atom sets around the body wrapper, must-pass ordering of sort-before-store, sentinel-error identity discipline (errors.Is after foreign callees) with sibling agreement on 413, decision-table extraction of the two strictest-of merge functions by abstract evaluation of their SSA (E10: groups of 0-3 sites x set/unset x every relative order)",
+		technique: "static analysis: exact guard-atom sets around the body wrapper, must-pass ordering of sort-before-store, sentinel-error identity discipline (errors.Is after foreign callees) with sibling agreement on 413, decision-table extraction of the two strictest-of merge functions by abstract evaluation of their SSA (E10: groups of 0-3 sites x set/unset x every relative order); decision tables of Limit.ServeHTTP and maxBytesReader.Read (E10)",
 		run:       runC17,
-		decided: "R1 the request body is replaced by the limiting reader under exactly {body present, path matches} using the matched entry's own limit, once, and the limit list is sorted longest-path-first before it is stored; " +
-			"R2 the limiting reader returns its sticky error before touching the source, reads at most limit+1 bytes, records the too-large sentinel, never remembers any other error than the source's own or that sentinel, and answers (apart from the sticky and empty-buffer cases) only after reading the source; " +
+		decided: "R1 the decision table of Limit.ServeHTTP (up to three path limits, every set of matching entries, body present or not): the next handler runs once with the body wrapped by a reader carrying the first matching entry's limit, or untouched; the limit list is sorted longest-path-first before it is stored; " +
+			"R2 the decision table of maxBytesReader.Read (allowance 0-3, buffer 0-5, remembered error, every source result): the remembered error without touching the source, (0, nil) for an empty buffer, otherwise one read of min(len(p), remaining+1) bytes passed through within the allowance and cut to it with the too-large sentinel beyond; " +
 			"R3 the too-large sentinel is tested with errors.Is wherever the error crossed foreign code, and every body-forwarding handler (proxy: two sites, fastcgi) maps it to 413; " +
 			"R4 each shared listener setting comes out as the smallest value among the sites that set it, and as the default (header limit: untouched) exactly when none does — the full input/output table of both merge functions for every group of up to three sites.",
-		notDecided: "off-by-one exactness over all body lengths × read sizes; groups of more than three co-hosted sites (the merge is a fold of the step the table covers); whether an explicit `timeouts none` should win the merge (recorded for triage, not asserted).",
+		notDecided: "allowances and buffers beyond the enumerated small sizes (the reader's arithmetic is the same for all); groups of more than three co-hosted sites (the merge is a fold of the step the table covers); whether an explicit `timeouts none` should win the merge (recorded for triage, not asserted).",
 	})
 }
 
